@@ -100,6 +100,7 @@ func checkC12(c *Ctx) {
 			RequireFacts(c, p, "C12.guard", fn, AcceptNilErr, nil, []Req{
 				{"LenGE", `^\d+ <= len\(p0\)$`},
 				{"A-parsed-and-validated", `^noerr G1Affine\.SetBytes\(pr\.A,`},
+				{"A-not-infinity", `^not G1Affine\.IsInfinity\(pr\.A\)$`},
 			})
 		}
 		if fn := need("PrivateKey", "SetBytes"); fn != nil {
@@ -112,6 +113,7 @@ func checkC12(c *Ctx) {
 		if fn := need("PublicKey", "Verify"); fn != nil {
 			RequireFacts(c, p, "C12.guard", fn, AcceptTrueBool, nil, []Req{
 				{"signature-parsed", `^noerr Signature\.SetBytes\(local:Signature,p0\)$`},
+				{"public-key-not-infinity", `^not G1Affine\.IsInfinity\(pr\.A\)$`},
 				{"x-mod-n-equals-r", `^0 == Int\.Cmp\(local:Int<-Mod\(local:Int,g:order\),local:Int<-SetBytes\(local:Signature\.R`},
 			})
 		}
